@@ -111,7 +111,8 @@ Finish ==
             f == CompleteForced(b, resp, now, Ev.code, Ev.lat, cfg, tripped) IN
         /\ b' = IF agree THEN m.b ELSE f.b
         /\ resp' = IF agree THEN m.resp ELSE f.resp
-        /\ drift' = IF agree \/ LatencyNear(cfg.ast, gr1, cfg)
+        /\ drift' = IF agree \/ LatencyNear(cfg.ast, gr1, cfg) \/
+                         (HasLatency(cfg.ast) /\ \E i \in 1..Len(resp) : now - resp[i].t >= 50 * cfg.tps)  \* histogram may have rotated them out
                       THEN drift ELSE Report(drift, scn, l, "cb.checkAndSet")
   /\ UNCHANGED <<scn, cfg, now>> /\ nev' = nev + 1
 
